@@ -84,7 +84,12 @@ Clauses(s, ln) ==
 After(s, ln) ==
   IF ln.ev = "new" THEN NewState(ln)
   ELSE IF ln.ev \in {"apply", "rel"} /\ Returned(ln) /\ WellPosed(s, ln) THEN
-    [s EXCEPT !.psi = IF s.exact THEN ApplyRef(ln.G, s.dims, ln.sites, s.psi, ln.op, ln.which) ELSE s.psi,
+    \* (every step is judged against the state observed before it: after a step whose exact observation is
+    \* available the abstract state is that observation, which ValueExact has just compared with ApplyRef;
+    \* a wrong step is then reported once and not again at every later step of its trace)
+    [s EXCEPT !.psi = IF ~s.exact THEN s.psi
+                      ELSE IF ln.ev = "apply" /\ ln.ongrid /\ ~(s.scaled \/ ln.renorm) THEN ln.psi
+                      ELSE ApplyRef(ln.G, s.dims, ln.sites, s.psi, ln.op, ln.which),
               !.form = IF Keeps(s, ln) /\ ln.struct THEN "struct" ELSE "loose",
               !.scaled = s.scaled \/ (ln.ev = "apply" /\ ln.renorm)]
   ELSE s
